@@ -457,6 +457,7 @@ func rulesC13(c *Ctx) {
 		"NOT decided: that the write log served by the database for two consecutive roots reproduces the second root (coalescing, revival from the DB) — value-dependent.")
 	c13Hops(c)
 	c13Resolvable(c)
+	rulesC13Round2(c)
 	const rule = "C13.commitknown"
 	const cwh = "storage/mkvs.(*tree).commitWithHooks"
 	if fn := c.needFn(rule, cwh); fn != nil {
@@ -790,6 +791,8 @@ func c13Resolvable(c *Ctx) {
 	}
 	keys := CallsTo(fn, "iptr.dbKey()", "storage/mkvs/db/pathbadger.(*dbPtr).dbKey", "")
 	c.GuardedByAny(rule, fn, "!iptr.isInvalid()", []string{`^!storage/mkvs/db/pathbadger\.\(\*dbPtr\)\.isInvalid\(.*InsertedNode\.DBInternal\.`}, keys, "a write log entry may refer to a leaf by its database key only if the leaf has one")
+	// a root node (of this or of an earlier version) is stored under its root hash, not under a node key (F29)
+	c.GuardedByAny(rule, fn, "!iptr.isRoot()", []string{`^!storage/mkvs/db/pathbadger\.\(\*dbPtr\)\.isRoot\(.*InsertedNode\.DBInternal\.`}, keys, "a write log entry may refer to a leaf by its database key only if the leaf can be looked up by that key: a root node is stored under its root hash")
 	// and the reader knows every entry kind the writer produces
 	wk := map[string]bool{}
 	for _, b := range fn.Blocks {
